@@ -90,6 +90,8 @@ def _evaluate(v, env):
             return Fraction(x)
         if x is None:
             return None
+        if x is Ellipsis:
+            return Ellipsis
         if isinstance(x, str):
             return x
         raise CannotEvaluate("constant %r" % (x,))
@@ -224,6 +226,9 @@ def eval_app(v, env):
     if fn == "getitem":
         base, idx = E(0), E(1)
         if not isinstance(base, Arr):
+            parts = idx if isinstance(idx, Arr) else [idx]
+            if all(p_ is None or isinstance(p_, slice) or p_ is Ellipsis for p_ in parts):
+                return base      # broadcasting bookkeeping on a scalar representative
             raise CannotEvaluate("subscript of scalar")
         if isinstance(idx, slice):
             return Arr(base[idx])
@@ -259,6 +264,9 @@ def eval_app(v, env):
     if fn == "gdiv":
         n, d = E(0), E(1)
         return _bcast(lambda x, y: None if _num(y) == 0 else _num(x) / _num(y), n, d)
+    if fn == "isclose":
+        x, y = E(0), E(1)
+        return _bcast(lambda u, w: abs(_num(u) - _num(w)) <= Fraction(1, 10 ** 8) + Fraction(1, 10 ** 5) * abs(_num(w)), x, y)
     if fn == "isscalar":
         return not isinstance(E(0), Arr)
     if fn == "is_none":
